@@ -5,9 +5,12 @@
 //	run …      blockchain.RunPrograms on the real code; the op line carries the
 //	           DecodePoint/Verify matrix (every key of a program × every signature
 //	           chunk of its parameter), the SchnorrVerify cell and the code hashes,
-//	           all evaluated by the real crypto package (see run.go) and re-checked
+//	           all evaluated by the real crypto package (see harness/runop) and re-checked
 //	           by the adapter.  Answer: ok | err <class> | panic.
 //	tamper …   same format: the programs of an accepted `run` with the signed data changed.
+//	txsig …    the real checkTransactionSignature (core/transaction and blockchain variants) on a
+//	           transaction rebuilt from the op: type, payload version, referenced addresses,
+//	           attributes, programs (format above execTxsig).
 //
 // The oracle judges the implementation's `ok` directly against the property, from
 // the matrix in the op line, independently of the Lean model.
@@ -15,13 +18,22 @@ package main
 
 import (
 	"bytes"
+	"fmt"
 	"math/big"
 	mrand "math/rand"
+	"strings"
 
 	"elaverif/harness/hx"
 
+	"github.com/elastos/Elastos.ELA/blockchain"
 	"github.com/elastos/Elastos.ELA/common"
 	"github.com/elastos/Elastos.ELA/core/contract"
+	"github.com/elastos/Elastos.ELA/core/contract/program"
+	"github.com/elastos/Elastos.ELA/core/transaction"
+	ctypes "github.com/elastos/Elastos.ELA/core/types/common"
+	"github.com/elastos/Elastos.ELA/core/types/functions"
+	"github.com/elastos/Elastos.ELA/core/types/interfaces"
+	"github.com/elastos/Elastos.ELA/core/types/outputpayload"
 	"github.com/elastos/Elastos.ELA/crypto"
 )
 
@@ -29,6 +41,8 @@ func exec(t []string) string {
 	switch t[0] {
 	case "run", "tamper":
 		return execRun(t)
+	case "txsig":
+		return execTxsig(t)
 	}
 	panic("harness: unknown op " + t[0])
 }
@@ -64,11 +78,112 @@ func schnorrOK(r *runOp, p progIn) bool {
 	return r.ST[hx.Hex(pad(33, p.Code[2:]))+" "+hx.Hex(p.Param[:64])] == "1"
 }
 
+// judgePair: is acceptance of (hash h, program i of r) justified by the signature matrix in the op line?
+func judgePair(r *runOp, h hashIn, i int) *hx.Violation {
+	p := r.Ps[i]
+	sch, std, ms := contract.IsSchnorr(p.Code), contract.IsStandard(p.Code), contract.IsMultiSig(p.Code)
+	if h.Pfx == byte(contract.PrefixCrossChain) {
+		if sch {
+			if !schnorrOK(r, p) {
+				return &hx.Violation{Kind: "accept-bad-signature", Detail: "cross-chain schnorr program accepted, SchnorrVerify is false"}
+			}
+			return nil
+		}
+		m := int(p.Code[0]) - 0x50
+		if m < 1 {
+			return &hx.Violation{Kind: "accept-unsigned-crosschain", Detail: "cross-chain program with m < 1 accepted (no signature required, no code-hash binding)"}
+		}
+		if distinctSigned(r, p) < m {
+			return &hx.Violation{Kind: "accept-bad-signature", Detail: "cross-chain program accepted with fewer than m distinct valid signers"}
+		}
+		return nil
+	}
+	if !bytes.Equal(h.Hash, r.CH[i]) {
+		return &hx.Violation{Kind: "accept-wrong-hash", Detail: "program code does not hash to the spent address"}
+	}
+	switch {
+	case sch:
+		if !schnorrOK(r, p) {
+			return &hx.Violation{Kind: "accept-bad-signature", Detail: "schnorr program accepted, SchnorrVerify is false"}
+		}
+	case std:
+		if len(p.Param) != 65 || r.VT[hx.Hex(p.Code[1:34])+" "+hx.Hex(p.Param[1:])] != "1" {
+			return &hx.Violation{Kind: "accept-bad-signature", Detail: "standard program accepted, Verify is not true"}
+		}
+	case ms || h.Pfx == byte(contract.PrefixMultiSig):
+		m := int(p.Code[0]) - 0x50
+		if m < 1 || distinctSigned(r, p) < m {
+			return &hx.Violation{Kind: "accept-bad-signature", Detail: "multisig program accepted with fewer than m distinct valid signers"}
+		}
+	default:
+		return &hx.Violation{Kind: "accept-unsigned-unknown-kind",
+			Detail: "program under a standard/deposit prefix is none of standard/multisig/schnorr and was accepted with no signature check"}
+	}
+	return nil
+}
+
+// reviewedExempt is the REVIEWED table of transaction kinds that checkTransactionSignature may accept
+// without looking at programs (they are created by the node itself from CR / DPoS state and are checked
+// against that state elsewhere).  Kept here, independent of the Lean model and of the source.
+func reviewedExempt(variant string, ttype, pver byte) bool {
+	switch ctypes.TxType(ttype) {
+	case ctypes.NextTurnDPOSInfo, ctypes.CRCProposalRealWithdraw, ctypes.CRAssetsRectify:
+		return true
+	case ctypes.CRCProposalWithdraw:
+		return pver == 0
+	case ctypes.DposV2ClaimRewardRealWithdraw, ctypes.VotesRealWithdraw:
+		return variant == "tx"
+	}
+	return false
+}
+
 func oracle(t []string, out string) *hx.Violation {
 	if out == "panic" {
 		return &hx.Violation{Kind: "panic", Detail: hx.LastPanic()}
 	}
 	if out != "ok" {
+		return nil
+	}
+	if t[0] == "txsig" {
+		o := parseTxsig(t)
+		if reviewedExempt(o.variant, o.ttype, o.pver) {
+			return nil
+		}
+		// every address the transaction spends from needs a program that justifies it
+		addrs := append([]hashIn{}, o.refs...)
+		for _, a := range o.attrs {
+			if a.usage == byte(ctypes.Script) {
+				if len(a.data) != 21 {
+					return &hx.Violation{Kind: "accept-unsigned-tx", Detail: "accepted with a malformed Script attribute"}
+				}
+				addrs = append(addrs, hashIn{Pfx: a.data[0], Hash: a.data[1:]})
+			}
+		}
+		for _, h := range addrs {
+			var first *hx.Violation
+			okFound := false
+			for i := range o.run.Ps {
+				if h.Pfx != byte(contract.PrefixCrossChain) && !bytes.Equal(h.Hash, o.run.CH[i]) {
+					continue
+				}
+				v := judgePair(o.run, h, i)
+				if v == nil {
+					okFound = true
+					break
+				}
+				if first == nil {
+					first = v
+				}
+			}
+			if !okFound {
+				if first != nil && (first.Kind == "accept-unsigned-unknown-kind" || first.Kind == "accept-unsigned-crosschain") {
+					return first
+				}
+				return &hx.Violation{Kind: "accept-unsigned-tx",
+					Detail: fmt.Sprintf("tx type 0x%02x payload version %d accepted although spent address %02x%s has no program with verifying signatures (not in the reviewed exemption table)",
+						o.ttype, o.pver, h.Pfx, hx.Hex(h.Hash))}
+			}
+		}
 		return nil
 	}
 	r := parseRun(t)
@@ -79,44 +194,8 @@ func oracle(t []string, out string) *hx.Violation {
 		return &hx.Violation{Kind: "accept-count", Detail: "accepted with different numbers of hashes and programs"}
 	}
 	for i, h := range r.Hs {
-		p := r.Ps[i]
-		sch, std, ms := contract.IsSchnorr(p.Code), contract.IsStandard(p.Code), contract.IsMultiSig(p.Code)
-		if h.Pfx == byte(contract.PrefixCrossChain) {
-			if sch {
-				if !schnorrOK(r, p) {
-					return &hx.Violation{Kind: "accept-bad-signature", Detail: "cross-chain schnorr program accepted, SchnorrVerify is false"}
-				}
-				continue
-			}
-			m := int(p.Code[0]) - 0x50
-			if m < 1 {
-				return &hx.Violation{Kind: "accept-unsigned-crosschain", Detail: "cross-chain program with m < 1 accepted (no signature required, no code-hash binding)"}
-			}
-			if distinctSigned(r, p) < m {
-				return &hx.Violation{Kind: "accept-bad-signature", Detail: "cross-chain program accepted with fewer than m distinct valid signers"}
-			}
-			continue
-		}
-		if !bytes.Equal(h.Hash, r.CH[i]) {
-			return &hx.Violation{Kind: "accept-wrong-hash", Detail: "program code does not hash to the spent address"}
-		}
-		switch {
-		case sch:
-			if !schnorrOK(r, p) {
-				return &hx.Violation{Kind: "accept-bad-signature", Detail: "schnorr program accepted, SchnorrVerify is false"}
-			}
-		case std:
-			if len(p.Param) != 65 || r.VT[hx.Hex(p.Code[1:34])+" "+hx.Hex(p.Param[1:])] != "1" {
-				return &hx.Violation{Kind: "accept-bad-signature", Detail: "standard program accepted, Verify is not true"}
-			}
-		case ms || h.Pfx == byte(contract.PrefixMultiSig):
-			m := int(p.Code[0]) - 0x50
-			if m < 1 || distinctSigned(r, p) < m {
-				return &hx.Violation{Kind: "accept-bad-signature", Detail: "multisig program accepted with fewer than m distinct valid signers"}
-			}
-		default:
-			return &hx.Violation{Kind: "accept-unsigned-unknown-kind",
-				Detail: "program under a standard/deposit prefix is none of standard/multisig/schnorr and was accepted with no signature check"}
+		if v := judgePair(r, h, i); v != nil {
+			return v
 		}
 	}
 	return nil
@@ -438,6 +517,255 @@ func genMulti(g *hx.Gen, w *world) {
 	}
 }
 
+// ---------------------------------------------------------------- txsig: checkTransactionSignature
+//
+//	txsig <tx|bc> <type> <pver> <lock> <nRefs> {<pfx> <hash20>}* <nAttr> {<usage> <data>}* <data> 0 <np> {<code> <param> <codehash>}* <nV> … <nS> …
+//
+// The transaction is rebuilt from the op (default payload of the type/version, one input per
+// referenced output, the attributes, lock time, programs) and handed to the real
+// checkTransactionSignature; <data> must be its unsigned serialization.
+
+type attrIn struct {
+	usage byte
+	data  []byte
+}
+type txOp struct {
+	variant     string
+	ttype, pver byte
+	lock        uint32
+	refs        []hashIn
+	attrs       []attrIn
+	run         *runOp
+}
+
+func parseTxsig(t []string) *txOp {
+	o := &txOp{variant: t[1]}
+	o.ttype = hx.UnHex(t[2])[0]
+	o.pver = byte(atoi(t[3]))
+	o.lock = uint32(atoi(t[4]))
+	i := 5
+	n := atoi(t[i])
+	i++
+	for k := 0; k < n; k++ {
+		o.refs = append(o.refs, hashIn{Pfx: hx.UnHex(t[i])[0], Hash: hx.UnHex(t[i+1])})
+		i += 2
+	}
+	n = atoi(t[i])
+	i++
+	for k := 0; k < n; k++ {
+		o.attrs = append(o.attrs, attrIn{usage: hx.UnHex(t[i])[0], data: hx.UnHex(t[i+1])})
+		i += 2
+	}
+	o.run = parseRun(append([]string{"run"}, t[i:]...))
+	return o
+}
+
+func buildTx(o *txOp, ps []progIn) (interfaces.Transaction, map[*ctypes.Input]ctypes.Output, bool) {
+	pl, err := interfaces.GetPayload(ctypes.TxType(o.ttype), o.pver)
+	if err != nil || pl == nil {
+		return nil, nil, false
+	}
+	var ins []*ctypes.Input
+	refs := map[*ctypes.Input]ctypes.Output{}
+	for k, h := range o.refs {
+		in := &ctypes.Input{Previous: ctypes.OutPoint{Index: uint16(k)}, Sequence: uint32(k)}
+		in.Previous.TxID[0] = byte(k + 1)
+		ins = append(ins, in)
+		var ph common.Uint168
+		ph[0] = h.Pfx
+		copy(ph[1:], h.Hash)
+		refs[in] = ctypes.Output{ProgramHash: ph, Payload: &outputpayload.DefaultOutput{}}
+	}
+	attrs := []*ctypes.Attribute{}
+	for _, a := range o.attrs {
+		attrs = append(attrs, &ctypes.Attribute{Usage: ctypes.AttributeUsage(a.usage), Data: exact(a.data)})
+	}
+	progs := []*program.Program{}
+	for _, p := range ps {
+		progs = append(progs, &program.Program{Code: exact(p.Code), Parameter: exact(p.Param)})
+	}
+	tx := functions.CreateTransaction(ctypes.TxVersion09, ctypes.TxType(o.ttype), o.pver, pl, attrs, ins, []*ctypes.Output{}, o.lock, progs)
+	return tx, refs, true
+}
+
+func unsignedOf(tx interfaces.Transaction) []byte {
+	buf := new(bytes.Buffer)
+	func() {
+		defer func() { recover() }()
+		tx.SerializeUnsigned(buf) // checkTransactionSignature ignores the error as well
+	}()
+	return buf.Bytes()
+}
+
+func execTxsig(t []string) string {
+	o := parseTxsig(t)
+	tx, refs, ok := buildTx(o, o.run.Ps)
+	if !ok {
+		return "no-payload"
+	}
+	if !bytes.Equal(unsignedOf(tx), o.run.Data) {
+		return "oracle-mismatch"
+	}
+	// re-check the matrix through the run-op machinery on an empty hash list
+	for k, p := range o.run.Ps {
+		if !bytes.Equal(common.ToCodeHash(p.Code).Bytes(), o.run.CH[k]) {
+			return "oracle-mismatch"
+		}
+	}
+	for id, want := range o.run.VT {
+		f := strings.Fields(id)
+		if verifyCell(hx.UnHex(f[0]), o.run.Data, hx.UnHex(f[1])) != want {
+			return "oracle-mismatch"
+		}
+	}
+	var err error
+	if o.variant == "bc" {
+		err = blockchain.VerifC05CheckTransactionSignature(tx, refs)
+	} else {
+		err = transaction.VerifC05CheckTransactionSignature(tx, refs)
+	}
+	if err != nil && err.Error() == "[BaseTransaction], GetProgramHashes err" {
+		return "err scriptAttr"
+	}
+	return errClass(err)
+}
+
+func txsigLine(o *txOp, ps []progIn) string {
+	tx, _, ok := buildTx(o, nil)
+	if !ok {
+		return ""
+	}
+	data := unsignedOf(tx)
+	var b strings.Builder
+	fmt.Fprintf(&b, "txsig %s %02x %d %d %d", o.variant, o.ttype, o.pver, o.lock, len(o.refs))
+	for _, h := range o.refs {
+		fmt.Fprintf(&b, " %02x %s", h.Pfx, hx.Hex(h.Hash))
+	}
+	fmt.Fprintf(&b, " %d", len(o.attrs))
+	for _, a := range o.attrs {
+		fmt.Fprintf(&b, " %02x %s", a.usage, hx.Hex(a.data))
+	}
+	b.WriteString(runLine(data, nil, ps)[3:])
+	return b.String()
+}
+
+func allTxTypes() []byte {
+	var ts []byte
+	for t := 0; t < 256; t++ {
+		if _, err := transaction.GetTransaction(ctypes.TxType(t)); err == nil {
+			ts = append(ts, byte(t))
+		}
+	}
+	return ts
+}
+
+// every transaction type × payload version 0..3 × {tx, bc} × scenarios
+func genTxsig(g *hx.Gen, w *world) {
+	r := g.R
+	for _, tt := range allTxTypes() {
+		for pv := 0; pv <= 3; pv++ {
+			if pl, err := interfaces.GetPayload(ctypes.TxType(tt), byte(pv)); err != nil || pl == nil {
+				continue
+			}
+			for _, variant := range []string{"tx", "bc"} {
+				scen := 8
+				if variant == "bc" {
+					scen = 3
+				}
+				for sc := 0; sc < scen; sc++ {
+					for rep := 0; rep < g.N(1, 4); rep++ {
+						o := &txOp{variant: variant, ttype: tt, pver: byte(pv), lock: uint32(r.Intn(1000))}
+						type acct struct {
+							pfx  byte
+							code []byte
+							ks   []*keyPair
+							m    int
+						}
+						nAcc := 1 + r.Intn(3)
+						var accts []acct
+						used := w.pick(nAcc + 1)
+						for k := 0; k < nAcc; k++ {
+							if r.Chance(70) {
+								accts = append(accts, acct{pfx: 0x21, code: w.stdCode(used[k]), ks: []*keyPair{used[k]}, m: 1})
+							} else {
+								ks := w.pick(2 + r.Intn(2))
+								m := 1 + r.Intn(len(ks))
+								accts = append(accts, acct{pfx: 0x12, code: w.msCode(m, ks, 0xAE), ks: ks, m: m})
+							}
+						}
+						for _, a := range accts {
+							h := hashFor(a.pfx, a.code)
+							o.refs = append(o.refs, h)
+							if r.Chance(35) { // the same address referenced by a second input
+								o.refs = append(o.refs, h)
+							}
+						}
+						o.attrs = append(o.attrs, attrIn{usage: byte(ctypes.Nonce), data: r.Bytes(8)})
+						withScript := sc == 7 || sc == 6
+						var scriptAcct *acct
+						if withScript {
+							a := acct{pfx: 0x21, code: w.stdCode(used[nAcc]), ks: []*keyPair{used[nAcc]}, m: 1}
+							h := hashFor(a.pfx, a.code)
+							data := append([]byte{h.Pfx}, h.Hash...)
+							if sc == 6 {
+								data = data[:20] // malformed: not 21 bytes
+							} else {
+								scriptAcct = &a
+							}
+							o.attrs = append(o.attrs, attrIn{usage: byte(ctypes.Script), data: data})
+						}
+						tx, _, _ := buildTx(o, nil)
+						data := unsignedOf(tx)
+						signData := data
+						if sc == 2 { // signatures made over another lock time
+							o2 := *o
+							o2.lock++
+							tx2, _, _ := buildTx(&o2, nil)
+							signData = unsignedOf(tx2)
+						}
+						all := append([]acct{}, accts...)
+						if scriptAcct != nil {
+							all = append(all, *scriptAcct)
+						}
+						var ps []progIn
+						for k, a := range all {
+							code := a.code
+							signers := shuffle(r, a.ks)[:a.m]
+							if sc == 1 && k == 0 { // foreign program: another key's script, validly signed by that key
+								fk := newKey(r)
+								code = w.stdCode(fk)
+								signers = []*keyPair{fk}
+							}
+							ps = append(ps, progIn{Code: code, Param: w.sigs(signData, signers)})
+						}
+						switch sc {
+						case 3:
+							ps = ps[:len(ps)-1]
+						case 4:
+							ps = append(ps, ps[0])
+						case 5:
+							ps[0].Param = nil // program present, no signature at all
+						}
+						// programs in random order: the node sorts them
+						for i := len(ps) - 1; i > 0; i-- {
+							j := r.Intn(i + 1)
+							ps[i], ps[j] = ps[j], ps[i]
+						}
+						// references in random order as well
+						for i := len(o.refs) - 1; i > 0; i-- {
+							j := r.Intn(i + 1)
+							o.refs[i], o.refs[j] = o.refs[j], o.refs[i]
+						}
+						if line := txsigLine(o, ps); line != "" {
+							g.Emit("%s", line)
+						}
+					}
+				}
+			}
+		}
+	}
+}
+
 func gen(g *hx.Gen) {
 	mrand.Seed(int64(g.Seed))
 	w := &world{r: g.R}
@@ -449,8 +777,13 @@ func gen(g *hx.Gen) {
 	genSchnorr(g, w)
 	genOdd(g, w)
 	genMulti(g, w)
+	genTxsig(g, w)
 }
 
 func main() {
+	functions.GetTransactionByTxType = transaction.GetTransaction
+	functions.GetTransactionByBytes = transaction.GetTransactionByBytes
+	functions.CreateTransaction = transaction.CreateTransaction
+	functions.GetTransactionParameters = transaction.GetTransactionparameters
 	hx.Main(&hx.Prop{Name: "C05", Gen: gen, Exec: exec, Oracle: oracle, Nontrivial: nontrivial})
 }
